@@ -1,41 +1,54 @@
 //! Process entry of the simulated CLI (`cwe_checker_sim`): runs the unchanged program body as
-//! one execution of the simulator. All knobs come from the environment of the process:
+//! one execution of the simulator.
 //!
+//! One-shot mode (default): one process = one run. Knobs come from the environment:
 //! * `SIM_SCHED`  — schedule spec (`sticky`, `rr`, `random:<seed>`, `pct:<seed>:<depth>:<span>`,
-//!   `trace:<ids>`), see `simcommon::sched`; default `sticky`.
+//!   `trace:<ids>:<rands>`), see `simcommon::sched`; default `sticky`.
 //! * `SIM_EVENTS` — file that receives the event log summary (schedule taken, channel events,
 //!   checks announced) when the execution ends, also when it ends by panic.
+//! Hash-seed entropy and syscall behaviour are owned by `libsimenv.so` (LD_PRELOAD).
 //!
-//! Hash-seed entropy and syscall behaviour are owned by `libsimenv.so` (LD_PRELOAD), not here.
+//! Server mode (`SIM_SERVER=1`): one process serves many runs, one after the other, to avoid the
+//! cost of process creation. Each request (one JSON line on stdin) names argv, the SIM_* knobs and
+//! the files that receive stdout/stderr of the run. Every run executes on a fresh OS thread (fresh
+//! per-thread hash keys, drawn from the re-seeded entropy stream) with file descriptors 1 and 2
+//! redirected, so its observables equal those of a one-shot process. The campaign driver confirms
+//! every anomaly in one-shot mode before it is reported; the self-test compares the two modes.
 
 use crossbeam_channel::events;
-use std::io::Write;
-use std::sync::Mutex;
+use std::ffi::{c_char, c_int, c_void, CString, OsString};
+use std::io::{BufRead, Write};
+use std::sync::{Arc, Mutex};
 
 static RESULT: Mutex<Option<String>> = Mutex::new(None);
 static MODULES: Mutex<Vec<String>> = Mutex::new(Vec::new());
+static ARGS: Mutex<Option<Vec<OsString>>> = Mutex::new(None);
 
 /// Called by the guarded hook in `main.rs` right before a check is executed.
 pub fn module_started(name: &str) {
-    MODULES.lock().unwrap().push(name.to_string());
-    events::record(events::Op::Custom(1), MODULES.lock().unwrap().len() as u32);
+    let n = {
+        let mut m = MODULES.lock().unwrap();
+        m.push(name.to_string());
+        m.len()
+    };
+    events::record(events::Op::Custom(1), n as u32);
 }
 
-fn write_events(trace: &[u32], rands: &[u64], panicked: bool) {
-    let Ok(path) = std::env::var("SIM_EVENTS") else {
-        return;
-    };
+/// The command line of the current run: the process arguments in one-shot mode, the arguments of
+/// the current request in server mode.
+pub fn args() -> Vec<OsString> {
+    match ARGS.lock().unwrap().as_ref() {
+        Some(a) => a.clone(),
+        None => std::env::args_os().collect(),
+    }
+}
+
+fn events_json(trace: &[u32], rands: &[u64], panicked: bool) -> String {
     let evs = events::take();
     let modules = MODULES.lock().unwrap().clone();
     let mut out = String::new();
     out.push_str("{\"modules\":[");
-    out.push_str(
-        &modules
-            .iter()
-            .map(|m| format!("\"{m}\""))
-            .collect::<Vec<_>>()
-            .join(","),
-    );
+    out.push_str(&modules.iter().map(|m| format!("\"{m}\"")).collect::<Vec<_>>().join(","));
     out.push_str("],\"sched_steps\":");
     out.push_str(&trace.len().to_string());
     out.push_str(",\"trace\":[");
@@ -47,41 +60,32 @@ fn write_events(trace: &[u32], rands: &[u64], panicked: bool) {
     out.push_str(",\"event_hash\":\"");
     out.push_str(&format!("{:016x}", events::hash(&evs)));
     out.push_str("\",\"tasks\":");
-    let tasks = evs
-        .iter()
-        .map(|e| e.task)
-        .filter(|t| *t != u32::MAX)
-        .max()
-        .map_or(0, |t| t + 1);
+    let tasks = evs.iter().map(|e| e.task).filter(|t| *t != u32::MAX).max().map_or(0, |t| t + 1);
     out.push_str(&tasks.to_string());
     let count = |op: events::Op| evs.iter().filter(|e| e.op == op).count();
     out.push_str(&format!(
-        ",\"sends\":{},\"recvs\":{},\"recv_blocked\":{},\"channels\":{},\"panicked\":{}}}\n",
+        ",\"sends\":{},\"recvs\":{},\"recv_blocked\":{},\"channels\":{},\"panicked\":{}}}",
         count(events::Op::Send),
         count(events::Op::Recv),
         count(events::Op::RecvBlocked),
         count(events::Op::NewChannel),
         panicked
     ));
-    if let Ok(mut f) = std::fs::File::create(path) {
-        let _ = f.write_all(out.as_bytes());
-    }
+    out
 }
 
-pub fn run_simulated<E, F>(f: F) -> Result<(), E>
+enum Outcome {
+    Ok,
+    Error(String),
+    Panic(Box<dyn std::any::Any + Send>),
+}
+
+/// One execution of the program body under the given schedule.
+fn execute<E, F>(f: Arc<F>, spec: simcommon::SchedSpec) -> (Outcome, String)
 where
     E: std::fmt::Debug + Send + 'static,
     F: Fn() -> Result<(), E> + Send + Sync + 'static,
 {
-    let spec = std::env::var("SIM_SCHED")
-        .ok()
-        .map(|s| {
-            simcommon::SchedSpec::parse(&s).unwrap_or_else(|| {
-                eprintln!("simulator: bad SIM_SCHED '{s}'");
-                std::process::exit(2)
-            })
-        })
-        .unwrap_or(simcommon::SchedSpec::Sticky);
     let (scheduler, trace) = simcommon::SimScheduler::new(spec);
     let mut cfg = shuttle::Config::new();
     cfg.stack_size = std::env::var("SIM_STACK_MB").ok().and_then(|s| s.parse::<usize>().ok()).unwrap_or(256) << 20;
@@ -89,6 +93,8 @@ where
     cfg.failure_persistence = shuttle::FailurePersistence::None;
     cfg.silence_warnings = true;
     events::reset();
+    MODULES.lock().unwrap().clear();
+    *RESULT.lock().unwrap() = None;
     let body = move || {
         if let Err(e) = f() {
             *RESULT.lock().unwrap() = Some(format!("{e:?}"));
@@ -97,16 +103,211 @@ where
     let outcome = std::panic::catch_unwind(std::panic::AssertUnwindSafe(|| {
         shuttle::Runner::new(scheduler, cfg).run(body);
     }));
-    let taken = trace.snapshot();
-    write_events(&taken, &trace.rands(), outcome.is_err());
-    if let Err(payload) = outcome {
-        // same observable behaviour as a panicking `main`: message already printed by the hook
-        std::panic::resume_unwind(payload);
+    let ev = events_json(&trace.snapshot(), &trace.rands(), outcome.is_err());
+    match outcome {
+        Err(payload) => (Outcome::Panic(payload), ev),
+        Ok(()) => match RESULT.lock().unwrap().take() {
+            Some(e) => (Outcome::Error(e), ev),
+            None => (Outcome::Ok, ev),
+        },
     }
-    if let Some(e) = RESULT.lock().unwrap().take() {
+}
+
+fn parse_spec(s: &str) -> simcommon::SchedSpec {
+    simcommon::SchedSpec::parse(s).unwrap_or_else(|| {
+        eprintln!("simulator: bad schedule spec '{s}'");
+        std::process::exit(2)
+    })
+}
+
+pub fn run_simulated<E, F>(f: F) -> Result<(), E>
+where
+    E: std::fmt::Debug + Send + 'static,
+    F: Fn() -> Result<(), E> + Send + Sync + 'static,
+{
+    let f = Arc::new(f);
+    if std::env::var("SIM_SERVER").is_ok() {
+        server_loop(f);
+    }
+    let spec = std::env::var("SIM_SCHED").ok().map(|s| parse_spec(&s)).unwrap_or(simcommon::SchedSpec::Sticky);
+    let (outcome, ev) = execute(f, spec);
+    // the simulator's own bookkeeping I/O is not part of the run: no faults, no accounting
+    let _ = std::io::stdout().flush();
+    let pause = sym("simenv_pause");
+    if !pause.is_null() {
+        let pause: PauseFn = unsafe { std::mem::transmute(pause) };
+        unsafe { pause() };
+    }
+    if let Ok(path) = std::env::var("SIM_EVENTS") {
+        if let Ok(mut file) = std::fs::File::create(path) {
+            let _ = file.write_all(ev.as_bytes());
+            let _ = file.write_all(b"\n");
+        }
+    }
+    match outcome {
+        // same observable behaviour as a panicking `main`: the message was printed by the panic hook
+        Outcome::Panic(payload) => std::panic::resume_unwind(payload),
         // same observable behaviour as `main` returning `Err`
-        eprintln!("Error: {e}");
-        std::process::exit(1);
+        Outcome::Error(e) => {
+            eprintln!("Error: {e}");
+            std::process::exit(1);
+        }
+        Outcome::Ok => Ok(()),
     }
-    Ok(())
+}
+
+// ---- server mode ---------------------------------------------------------------------------------
+
+extern "C" {
+    fn dup(fd: c_int) -> c_int;
+    fn dup2(old: c_int, new: c_int) -> c_int;
+    fn close(fd: c_int) -> c_int;
+    fn open(path: *const c_char, flags: c_int, mode: c_int) -> c_int;
+    fn dlsym(handle: *mut c_void, symbol: *const c_char) -> *mut c_void;
+}
+
+type ResetFn = unsafe extern "C" fn(*const c_char, *const c_char);
+type PauseFn = unsafe extern "C" fn();
+type StatsFn = unsafe extern "C" fn(*mut c_char, usize) -> c_int;
+
+fn sym(name: &str) -> *mut c_void {
+    let c = CString::new(name).unwrap();
+    unsafe { dlsym(std::ptr::null_mut(), c.as_ptr()) }
+}
+
+/// Minimal extraction of a string / string-array field from a flat JSON request line
+/// (the driver writes these lines itself; values never contain escaped quotes except `\"` and `\\`).
+fn json_str(line: &str, key: &str) -> Option<String> {
+    let pat = format!("\"{key}\":\"");
+    let i = line.find(&pat)? + pat.len();
+    let mut out = String::new();
+    let mut chars = line[i..].chars();
+    while let Some(c) = chars.next() {
+        match c {
+            '\\' => {
+                if let Some(n) = chars.next() {
+                    out.push(n);
+                }
+            }
+            '"' => return Some(out),
+            c => out.push(c),
+        }
+    }
+    None
+}
+
+fn json_str_array(line: &str, key: &str) -> Option<Vec<String>> {
+    let pat = format!("\"{key}\":[");
+    let i = line.find(&pat)? + pat.len();
+    let mut out = Vec::new();
+    let mut cur = String::new();
+    let mut in_str = false;
+    let mut chars = line[i..].chars();
+    while let Some(c) = chars.next() {
+        if in_str {
+            match c {
+                '\\' => {
+                    if let Some(n) = chars.next() {
+                        cur.push(n);
+                    }
+                }
+                '"' => {
+                    in_str = false;
+                    out.push(std::mem::take(&mut cur));
+                }
+                c => cur.push(c),
+            }
+        } else {
+            match c {
+                '"' => in_str = true,
+                ']' => return Some(out),
+                _ => {}
+            }
+        }
+    }
+    None
+}
+
+fn server_loop<E, F>(f: Arc<F>) -> !
+where
+    E: std::fmt::Debug + Send + 'static,
+    F: Fn() -> Result<(), E> + Send + Sync + 'static,
+{
+    let reset = sym("simenv_reset");
+    let pause = sym("simenv_pause");
+    let stats = sym("simenv_stats");
+    if reset.is_null() || pause.is_null() || stats.is_null() {
+        eprintln!("simulator: server mode needs libsimenv.so");
+        std::process::exit(2);
+    }
+    let reset: ResetFn = unsafe { std::mem::transmute(reset) };
+    let pause: PauseFn = unsafe { std::mem::transmute(pause) };
+    let stats: StatsFn = unsafe { std::mem::transmute(stats) };
+    unsafe { pause() };
+    // responses go to the original stdout; fds 1 and 2 are redirected per run
+    let resp_fd = unsafe { dup(1) };
+    let err_fd = unsafe { dup(2) };
+    let mut resp = unsafe { <std::fs::File as std::os::fd::FromRawFd>::from_raw_fd(resp_fd) };
+    let stdin = std::io::stdin();
+    let mut line = String::new();
+    loop {
+        line.clear();
+        if stdin.lock().read_line(&mut line).unwrap_or(0) == 0 {
+            std::process::exit(0);
+        }
+        let argv = json_str_array(&line, "argv").unwrap_or_default();
+        let entropy = json_str(&line, "entropy").unwrap_or_else(|| "0".into());
+        let sched = json_str(&line, "sched").unwrap_or_else(|| "sticky".into());
+        let io = json_str(&line, "io").unwrap_or_else(|| "0".into());
+        let out_path = json_str(&line, "stdout").unwrap_or_default();
+        let err_path = json_str(&line, "stderr").unwrap_or_default();
+        let open_to = |path: &str, fd: c_int| {
+            let c = CString::new(path).unwrap();
+            // O_WRONLY | O_CREAT | O_TRUNC
+            let nfd = unsafe { open(c.as_ptr(), 0o1 | 0o100 | 0o1000, 0o644) };
+            if nfd >= 0 {
+                unsafe {
+                    dup2(nfd, fd);
+                    close(nfd);
+                }
+            }
+        };
+        open_to(&out_path, 1);
+        open_to(&err_path, 2);
+        let mut full: Vec<OsString> = vec![OsString::from("cwe_checker_sim")];
+        full.extend(argv.iter().map(OsString::from));
+        *ARGS.lock().unwrap() = Some(full);
+        let spec = parse_spec(&sched);
+        let (c_ent, c_io) = (CString::new(entropy).unwrap(), CString::new(io).unwrap());
+        let f2 = f.clone();
+        // fresh OS thread: fresh per-thread hash keys, drawn after the entropy stream was re-seeded
+        let handle = std::thread::Builder::new()
+            .name("main".into())
+            .spawn(move || {
+                unsafe { reset(c_ent.as_ptr(), c_io.as_ptr()) };
+                let (outcome, ev) = execute(f2, spec);
+                let code = match outcome {
+                    Outcome::Ok => 0,
+                    Outcome::Error(e) => {
+                        eprintln!("Error: {e}");
+                        1
+                    }
+                    Outcome::Panic(_) => 101,
+                };
+                let _ = std::io::stdout().flush();
+                (code, ev)
+            })
+            .unwrap();
+        let (code, ev) = handle.join().unwrap_or((101, "null".to_string()));
+        let mut buf = vec![0u8; 1 << 17];
+        let n = unsafe { stats(buf.as_mut_ptr() as *mut c_char, buf.len()) };
+        unsafe { pause() };
+        let stats_json = String::from_utf8_lossy(&buf[..n.max(0) as usize]).to_string();
+        unsafe {
+            dup2(resp_fd, 1);
+            dup2(err_fd, 2);
+        }
+        let _ = writeln!(resp, "{{\"exit\":{code},\"events\":{ev},\"stats\":{stats_json}}}");
+        let _ = resp.flush();
+    }
 }
